@@ -527,9 +527,9 @@ func applyPush(ctx Context, doc bsonkit.Doc, name, path string, v interface{}) e
 				newArr = newArr[:int(s)]
 			}
 		default: // s < 0
-			keep := -int(s)
-			if keep < len(newArr) {
-				newArr = newArr[len(newArr)-keep:]
+			// (compare without negating, the modifier may be the integer minimum)
+			if s > -int64(len(newArr)) {
+				newArr = newArr[len(newArr)+int(s):]
 			}
 		}
 	}
@@ -571,7 +571,8 @@ func pushIntModifier(name, modifier string, v interface{}) (int64, error) {
 	case int64:
 		return n, nil
 	case float64:
-		if n != float64(int64(n)) {
+		// (the conversion of doubles beyond the 64-bit range is undefined)
+		if !(n >= -9223372036854775808.0 && n < 9223372036854775808.0) || n != float64(int64(n)) {
 			return 0, fmt.Errorf("%s: %s must be an integer", name, modifier)
 		}
 		return int64(n), nil
